@@ -4,6 +4,7 @@
 EXTENDS Shlibs, Json, IOUtils
 
 CONSTANTS Themes, ML, MW,     \* vocabularies, max lines, max words per line of the checked cases
+          Extras,             \* TRUE: also empty lines, the empty request list, a first request that names an existing file
           LaML,               \* max lines of a libtool archive ("la" \in Themes)
           EML, EMW            \* bounds of the subset exported to the harness (<= ML, MW)
 
@@ -73,12 +74,22 @@ R_wide == {<<<<"f","o","o">>>>, <<<<"p","a","n","g","o">>>>, <<<<"f","o","o">>, 
 Vocab(th) == CASE th = "foo" -> V_foo [] th = "pango" -> V_pango [] th = "sep" -> V_sep [] th = "meta1" -> V_meta1 [] th = "meta2" -> V_meta2 [] th = "foo3" -> V_foo3 [] th = "pango3" -> V_pango3 [] th = "meta3" -> V_meta3 [] th = "wide" -> V_wide [] OTHER -> {}
 ReqLists(th) == CASE th = "foo" -> R_foo [] th = "pango" -> R_pango [] th = "sep" -> R_sep [] th = "meta1" -> R_meta1 [] th = "meta2" -> R_meta2 [] th = "foo3" -> R_foo3 [] th = "pango3" -> R_pango3 [] th = "meta3" -> R_meta3 [] th = "wide" -> R_wide [] OTHER -> {}
 
-LinesOf(V, mw) == UNION {[1..k -> V] : k \in 1..mw}
-ListingsOf(V, ml, mw) == UNION {[1..n -> LinesOf(V, mw)] : n \in 0..ml}
-LddCases(RLs, V, ml, mw) == {[t |-> "ldd", reqs |-> rl, files |-> <<>>, listing |-> l] : rl \in RLs, l \in ListingsOf(V, ml, mw)}
+\* sequences over S of length lo..hi as a LAZY union of function sets (TLC's UNION and \cup of
+\* enumerated sets insert with a linear search; a SetCupValue of function sets is enumerated and
+\* sorted once)
+RECURSIVE SeqsUpTo(_, _, _)
+SeqsUpTo(S, lo, hi) == IF lo > hi THEN {} ELSE [1..lo -> S] \cup SeqsUpTo(S, lo + 1, hi)
+LinesOf(V, mw) == SeqsUpTo(V, IF Extras THEN 0 ELSE 1, mw)
+ListingsOf(V, ml, mw) == SeqsUpTo(LinesOf(V, mw), 0, ml)
+LddCase(rl, f, l) == [t |-> "ldd", reqs |-> rl, files |-> f, listing |-> l]
+FilesFor(rl) == IF Extras /\ rl # <<>> THEN {<<>>, <<rl[1]>>} ELSE {<<>>}
+ReqListsX(th) == ReqLists(th) \cup (IF Extras THEN {<<>>} ELSE {})
+ReqFiles(th) == UNION {{<<rl, f>> : f \in FilesFor(rl)} : rl \in ReqListsX(th)}
+LddCases(th, ml, mw) == {LddCase(x[1], x[2], l) : x \in ReqFiles(th), l \in ListingsOf(Vocab(th), ml, mw)}
+LddThemes == Themes \ {"la"}
 
-MC_Cases == UNION {LddCases(ReqLists(th), Vocab(th), ML, MW) : th \in Themes}
-MC_Export == UNION {LddCases(ReqLists(th), Vocab(th), EML, EMW) : th \in Themes}
+\* constant-level case sets are only built for small bounds (ShlibsWit's pool, the export)
+CasesOf(ml, mw) == UNION {LddCases(th, ml, mw) : th \in LddThemes}
 MC_None == {}
 
 \* libtool archives: up to 3 lines out of
@@ -95,7 +106,26 @@ LaVocab == {<<"#"," ","l","i","b","f","o","o",".","l","a"," ","-"," ","a"," ","l
 LA_NAME == <<"l","i","b","f","o","o",".","l","a">>
 MC_LaCases == IF "la" \in Themes THEN {[t |-> "la", name |-> LA_NAME, lines |-> l] : l \in UNION {[1..n -> LaVocab] : n \in 0..LaML}} ELSE {}
 
-\* the harness sees exactly (a bounded subset of) the cases TLC counted
+\* The checked cases are enumerated by the behaviours (nothing of the size of the state space is built at
+\* constant level): Init chooses the vocabulary, the requests and the first line, MCPick the other lines.
+\* TLC generates initial states with one thread and successors with all workers, so the bulk of the
+\* enumeration runs in parallel.
+VARIABLE theme
+MCInit == \/ /\ theme \in LddThemes
+             /\ \E x \in ReqFiles(theme) : \E first \in SeqsUpTo(LinesOf(Vocab(theme), MW), 0, IF ML > 0 THEN 1 ELSE 0) :
+                   case = LddCase(x[1], x[2], first)
+             /\ st = [Idle EXCEPT !.pc = "pick"]
+             /\ outcome = None
+          \/ theme = "la" /\ InitOn(MC_LaCases)
+MCPick == /\ st.pc = "pick"
+          /\ \E n \in 0..(IF case.listing = <<>> THEN 0 ELSE ML - 1) : \E more \in [1..n -> LinesOf(Vocab(theme), MW)] :
+                case' = [case EXCEPT !.listing = @ \o more]
+          /\ st' = Idle
+          /\ UNCHANGED <<outcome, theme>>
+MCNext == MCPick \/ (Next /\ UNCHANGED theme)
+
+\* the harness sees exactly (a bounded subset of) the cases TLC counted: one file per theme
+ExportOf(th) == IF th = "la" THEN MC_LaCases ELSE LddCases(th, EML, EMW)
 ASSUME ("C19_EXPORT" \in DOMAIN IOEnv) =>
-          ndJsonSerialize(IOEnv.C19_EXPORT, SetToSeq(MC_Export \cup MC_LaCases))
+          \A th \in Themes : ndJsonSerialize(IOEnv.C19_EXPORT \o "." \o th, SetToSeq(ExportOf(th)))
 =============================================================================
